@@ -185,8 +185,8 @@ func checkC15(c C15Case) *Violation {
 			iv, _ := theory.AttrEnglish(c.Attr)
 			rn, _ := parseNoteName(c.Root)
 			argv := []string{"info", "attr", "describe", "-t", c.Attr, "-r", c.Root}
-			if c.Sharp {
-				argv = append(argv, "-s")
+			if f := sharpFlag(c.Sharp, len(c.Root)+len(c.Attr)); f != "" {
+				argv = append(argv, f)
 			}
 			res := crd("", argv...)
 			if v := cleanOutcome(res); v != nil {
@@ -207,8 +207,8 @@ func checkC15(c C15Case) *Violation {
 				target = c.Root + "_" + c.Sym
 			}
 			argv := []string{"info", "chord", "describe", "-t", target}
-			if c.Sharp {
-				argv = append(argv, "-s")
+			if f := sharpFlag(c.Sharp, len(c.Root)+len(c.Attr)); f != "" {
+				argv = append(argv, f)
 			}
 			res := crd("", argv...)
 			if v := cleanOutcome(res); v != nil {
@@ -336,4 +336,13 @@ func TestC15(t *testing.T) {
 func perfectUnison() note.Degree {
 	d, _ := note.NewDegree(1, note.PerfectDegree)
 	return d
+}
+
+// sharpFlag: the spellings the command line has for "sharps please" and for "flats please" (the default); which one is
+// used is a function of the case, so that runs and replays agree.
+func sharpFlag(sharp bool, salt int) string {
+	if sharp {
+		return []string{"-s", "--precedeSharp", "--precedeSharp=true", "-s=true"}[salt%4]
+	}
+	return []string{"", "", "--precedeSharp=false", "-s=false"}[salt%4]
 }
